@@ -71,6 +71,62 @@ def dnspython_validate(bundle: Any, sig: Any) -> str | None:
     return None
 
 
+def file_level_problems(xml_text: str, in_memory_bundles: list[Any]) -> list[str]:
+    """The SKR *file* judged on its own: parsed with ElementTree (no repository code), every <Signature> of every
+    <ResponseBundle> must validate under dnspython over exactly the <Key> elements written into that bundle, and the
+    file must show the same number of keys and signatures per bundle as the response that was signed."""
+    import xml.etree.ElementTree as ET
+    from datetime import datetime
+
+    import dns.dnssec
+    import dns.name
+    import dns.rdataclass
+    import dns.rdatatype
+    import dns.rrset
+    from dns.rdtypes.ANY.DNSKEY import DNSKEY
+    from dns.rdtypes.ANY.RRSIG import RRSIG
+
+    def local(e: Any) -> str:
+        return e.tag.rsplit("}", 1)[-1]
+
+    def child(e: Any, name: str) -> Any:
+        for c in e:
+            if local(c) == name:
+                return c
+        raise KeyError(name)
+
+    def ts(t: str) -> int:
+        return int(datetime.fromisoformat(t.replace("Z", "+00:00")).timestamp())
+
+    bad: list[str] = []
+    root = ET.fromstring(xml_text)
+    fb = [e for e in root.iter() if local(e) == "ResponseBundle"]
+    if len(fb) != len(in_memory_bundles):
+        return [f"file has {len(fb)} bundles, response has {len(in_memory_bundles)}"]
+    for i, (e, rb) in enumerate(zip(fb, in_memory_bundles), 1):
+        keys = [c for c in e if local(c) == "Key"]
+        sigs = [c for c in e.iter() if local(c) == "Signature"]
+        if len(keys) != len(rb.keys):
+            bad.append(f"bundle {i}: file publishes {len(keys)} keys, the signed response has {len(rb.keys)}")
+        if len(sigs) != len(rb.signatures):
+            bad.append(f"bundle {i}: file has {len(sigs)} signatures, the response has {len(rb.signatures)}")
+        for sg in sigs:
+            ottl = int(child(sg, "OriginalTTL").text)
+            rrset = dns.rrset.RRset(dns.name.root, dns.rdataclass.IN, dns.rdatatype.DNSKEY)
+            for k in keys:
+                rrset.add(DNSKEY(dns.rdataclass.IN, dns.rdatatype.DNSKEY, int(child(k, "Flags").text), int(child(k, "Protocol").text), int(child(k, "Algorithm").text), base64.b64decode(child(k, "PublicKey").text)), ttl=ottl)
+            rrsig = RRSIG(
+                dns.rdataclass.IN, dns.rdatatype.RRSIG, dns.rdatatype.DNSKEY, int(child(sg, "Algorithm").text), int(child(sg, "Labels").text), ottl,
+                ts(child(sg, "SignatureExpiration").text), ts(child(sg, "SignatureInception").text), int(child(sg, "KeyTag").text),
+                dns.name.from_text(child(sg, "SignersName").text), base64.b64decode(child(sg, "SignatureData").text),
+            )  # fmt: skip
+            try:
+                dns.dnssec.validate_rrsig(rrset, rrsig, {dns.name.root: rrset}, now=ts(child(sg, "SignatureInception").text) + 1)
+            except Exception as exc:  # noqa: BLE001
+                bad.append(f"bundle {i}: signature by {sg.get('keyIdentifier')} does not validate over the keys in the file: {type(exc).__name__}: {exc}")
+    return bad
+
+
 def grid(r: Any) -> list[S.Scenario]:
     """All four algorithms x host/token hashing x token profiles, at least once per run."""
     out = []
@@ -94,7 +150,9 @@ def run(tier: str, driver_ok: bool) -> Result:
     res.rule = (
         "grid (algorithms 8/10/13/14 x hash on host/token/unset x token profile) + random well-formed scenarios (1..9 bundles, 1..3 ZSKs, "
         "1..3 KSKs RSA 1024..4096 with fixture exponents / P-256 / P-384, arbitrary schemas, 1..2 modules x 1..3 slots); every signature of "
-        "every response bundle judged by dnspython; non-trivial = distinct scenario"
+        "every response bundle judged by dnspython; RSA scenarios alternately through create_skr() + skr_to_xml(), the written text parsed "
+        "with ElementTree and judged by dnspython over the keys in the file; key-tag specials (carry, revoked carry, twin signers, ZSK = KSK tag); "
+        "non-trivial = distinct scenario"
     )
     r = lib.rng("C01")
     scenarios = grid(r) + S.special_scenarios(r)
@@ -102,10 +160,28 @@ def run(tier: str, driver_ok: bool) -> Result:
         scenarios.append(S.gen_scenario(r, quick=(tier == "quick")))
     runs = []
     nsig = 0
-    for sc in scenarios:
-        x = S.run_sign(sc, "sign_bundles")
-        x["case"] = {"what": "sign_bundles", "scenario": S.describe(sc)}
+    nfile = 0
+    for si, sc in enumerate(scenarios):
+        # RSA scenarios go through create_skr() + the SKR writer every second time (and always for the key-tag specials):
+        # the property is observed at the written file too.  (create_skr cannot state an ECDSA KSK policy.)
+        what = "create_skr" if sc.meta["alg"] in (8, 10) and (si % 2 == 0 or sc.meta.get("special")) else "sign_bundles"
+        x = S.run_sign(sc, what)
+        x["case"] = {"what": what, "scenario": S.describe(sc)}
+        x["what"] = what
         runs.append(x)
+        if what == "create_skr" and "ok" in x["impl"]:
+            from kskm.skr.output import skr_to_xml
+
+            resp = x["objs"]
+            x["objs"] = list(resp.bundles)
+            fam = "rsa"
+            try:
+                probs = file_level_problems(skr_to_xml(resp), x["objs"])
+            except Exception as exc:  # noqa: BLE001
+                probs = [f"the written SKR could not be read by a standard XML parser / judged: {type(exc).__name__}: {exc}"]
+            nfile += 1
+            if probs:
+                res.violation("the written SKR file does not carry valid RRSIGs over exactly the DNSKEY set it publishes", x["case"], key=f"file:{fam}", broken=probs[:6])
         res.count(x["case"])
         alg = sc.meta["alg"]
         res.bump(f"alg:{alg}")
@@ -113,6 +189,7 @@ def run(tier: str, driver_ok: bool) -> Result:
         if "ok" not in impl:
             res.violation("well-formed request, schema and healthy keys: signing did not complete", x["case"], key=f"incomplete:alg{alg}", impl=impl)
             continue
+        res.bump(what)
         mechs = sorted({rec["mechanism"] for rec in x["log"] if rec["op"] == "sign"})
         res.bump("mechanisms:" + ",".join(str(m) for m in mechs))
         for qb, rb in zip(x["req"].bundles, x["objs"]):
@@ -142,8 +219,10 @@ def run(tier: str, driver_ok: bool) -> Result:
         if len(res.samples) < 2:
             res.sample({"case": x["case"], "signatures_validated": nsig, "sign_ops": [{"mechanism": rec["mechanism"], "data_len": len(rec["data"]) // 2} for rec in x["log"] if rec["op"] == "sign"][:4]})
     res.stats["signatures_judged_by_dnspython"] = nsig
+    res.stats["skr_files_judged_by_elementtree_and_dnspython"] = nfile
     if driver_ok:
-        S.compare_with_model(res, runs, "sign_bundles")
+        for what in ("sign_bundles", "create_skr"):
+            S.compare_with_model(res, [x for x in runs if x["what"] == what], what)
     return res
 
 
